@@ -102,14 +102,15 @@ class SCSIDevice(metaclass=ExMETA):
         :param read_write:
         :return:
         """
+        # the inode recorded for the previous handle says nothing about the new
+        # one: if the open or the stat below fails, the next execute has to
+        # look again
+        self._ino = None
         self._file = open(
             self._file_name,
             "w+b" if self._read_write else "rb",
             buffering=self._buffering,
         )
-        # the inode recorded for the previous handle says nothing about this
-        # one: if the stat below fails, the next execute has to look again
-        self._ino = None
         self._ino = get_inode(self._file_name)
 
     def close(self):
